@@ -45,3 +45,158 @@ package blockstore
 //@   ensures[hash_matches] err == nil ==> sumCid(cidPrefix(c), blockBytes(result0)) == c
 //@   ensures[from_inner_store] err == nil ==> result0 == res("invoke:Get#0") && res("invoke:Get#0", 1) == nil
 //@   site[asked_for_c] invoke:Get : arg2 == c
+
+// ---- C01: the datastore-backed blockstore is a map from multihash to bytes ------------------
+// abstract datastore: dsHas(d, k) / dsData(d, k) - the entry stored under key k; dsFault(): some
+// datastore operation failed for a reason other than "not found"
+//@ ghost dsHas(d ds.Batching, k ds.Key) bool
+//@ ghost dsData(d ds.Batching, k ds.Key) []byte
+//@ ghost dsFault() bool
+//@ spec cidHash(c cid.Cid) multihash.Multihash
+//@ func ext (github.com/ipfs/go-cid.Cid).Hash
+//@   ensures result == cidHash(c)
+//@ func ext (github.com/ipfs/go-cid.Cid).Defined
+//@   pure
+//@ func ext github.com/ipfs/go-block-format.NewBlockWithCid
+//@   ensures err == nil ==> result0 != nil && blockBytes(asIface(result0)) == data && blockCid(asIface(result0)) == c
+//@ func iface github.com/ipfs/go-datastore.Batching.Get
+//@   modifies dsFault()
+//@   ensures err == nil ==> dsHas(self, key) && value == dsData(self, key) && dsFault() == old(dsFault())
+//@   ensures err == ds.ErrNotFound ==> !dsHas(self, key) && dsFault() == old(dsFault())
+//@   ensures err != nil && err != ds.ErrNotFound ==> dsFault()
+//@   ensures !dsHas(self, key) ==> err != nil
+//@ func iface github.com/ipfs/go-datastore.Batching.Has
+//@   modifies dsFault()
+//@   ensures err == nil ==> exists == dsHas(self, key) && dsFault() == old(dsFault())
+//@   ensures err != nil ==> dsFault()
+//@ func iface github.com/ipfs/go-datastore.Batching.GetSize
+//@   modifies dsFault()
+//@   ensures err == nil ==> dsHas(self, key) && size == len(dsData(self, key)) && dsFault() == old(dsFault())
+//@   ensures err == ds.ErrNotFound ==> !dsHas(self, key) && dsFault() == old(dsFault())
+//@   ensures err != nil && err != ds.ErrNotFound ==> dsFault()
+//@   ensures !dsHas(self, key) ==> err != nil
+//@ func iface github.com/ipfs/go-datastore.Batching.Put
+//@   modifies dsHas(self, key), dsData(self, key), dsFault()
+//@   ensures err == nil ==> dsHas(self, key) && dsData(self, key) == value && dsFault() == old(dsFault())
+//@   ensures err != nil ==> dsHas(self, key) == old(dsHas(self, key)) && dsData(self, key) == old(dsData(self, key)) && dsFault()
+//@ func iface github.com/ipfs/go-datastore.Batching.Delete
+//@   modifies dsHas(self, key), dsFault()
+//@   ensures err == nil ==> !dsHas(self, key) && dsFault() == old(dsFault())
+//@   ensures err != nil ==> dsHas(self, key) == old(dsHas(self, key)) && dsFault()
+
+//@ macro entryKey(c) = mhKey(cidHash(c))
+//@ macro present(bs, c) = dsHas(bs.datastore, entryKey(c))
+//@ macro entryBytes(bs, c) = dsData(bs.datastore, entryKey(c))
+
+//@ func (*blockstore).Get
+//@   prop C01
+//@   arith int
+//@   requires bs != nil
+//@   modifies dsFault()
+//@   ensures[hit_returns_the_entry] err == nil ==> present(bs, k) && blockBytes(result0) == entryBytes(bs, k) && blockCid(result0) == k
+//@   ensures[miss_is_an_error] !present(bs, k) ==> err != nil
+//@   ensures[not_found_means_absent] err != nil && !dsFault() && res("call:Defined#0") ==> !present(bs, k) || called("call:NewBlockWithCid#0")
+//@ func (*blockstore).Has
+//@   prop C01
+//@   arith int
+//@   requires bs != nil
+//@   modifies dsFault()
+//@   ensures[answers_presence] err == nil ==> result0 == present(bs, k)
+//@ func (*blockstore).GetSize
+//@   prop C01
+//@   arith int
+//@   requires bs != nil
+//@   modifies dsFault()
+//@   ensures[size_of_the_entry] err == nil ==> present(bs, k) && result0 == len(entryBytes(bs, k))
+//@   ensures[miss_is_an_error] !present(bs, k) ==> err != nil && result0 == -1 || dsFault()
+//@ func (*blockstore).DeleteBlock
+//@   prop C01
+//@   arith int
+//@   requires bs != nil
+//@   modifies dsHas(bs.datastore, entryKey(k)), dsFault()
+//@   ensures[deleted] err == nil ==> !present(bs, k)
+//@   ensures[failed_keeps] err != nil ==> present(bs, k) == old(present(bs, k))
+// Put: afterwards the block's multihash is present; the bytes are the block's unless an entry was
+// already there (same multihash, hence same bytes); nothing else changes (frame)
+//@ func (*blockstore).Put
+//@   prop C01
+//@   arith int
+//@   requires bs != nil
+//@   modifies dsHas(bs.datastore, entryKey(blockCid(block))), dsData(bs.datastore, entryKey(blockCid(block))), dsFault()
+//@   ensures[present_afterwards] err == nil ==> present(bs, blockCid(block))
+//@   ensures[bytes_stored] err == nil ==> entryBytes(bs, blockCid(block)) == blockBytes(block) || (old(present(bs, blockCid(block))) && !bs.writeThrough && entryBytes(bs, blockCid(block)) == old(entryBytes(bs, blockCid(block))))
+//@   ensures[write_through_always_writes] err == nil && bs.writeThrough ==> entryBytes(bs, blockCid(block)) == blockBytes(block)
+//@   ensures[failed_keeps] err != nil ==> present(bs, blockCid(block)) == old(present(bs, blockCid(block)))
+// PutMany: the single-block fast path is Put; the batch path checks and writes every block under the
+// key of its own multihash with its own bytes
+//@ func iface github.com/ipfs/go-datastore.Batching.Batch
+//@ func iface github.com/ipfs/go-datastore.Batch.Put
+//@ func iface github.com/ipfs/go-datastore.Batch.Commit
+//@ func (*blockstore).PutMany
+//@   prop C01
+//@   arith int-assumed
+//@   requires bs != nil
+//@   modifies all
+//@   site[existence_checked_under_the_blocks_key] invoke:Batching.Has : arg2 == entryKey(blockCid(b))
+//@   site[written_under_the_blocks_key] invoke:Batch.Put : arg2 == entryKey(blockCid(b)) && arg3 == blockBytes(b)
+//@   site[single_block_is_put] call:blockstore.Put : len(blocks) == 1 && arg2 == blocks[0]
+//@   site[batch_committed] invoke:Batch.Commit : rangeindex + 1 == len(blocks) || len(blocks) == 0
+//@   ensures[commit_failure_reported] called("invoke:Batch.Commit#0") && res("invoke:Batch.Commit#0", 0) != nil ==> err != nil
+
+// ---- C01: identity CIDs carry their bytes; the identity store never asks the inner store for them ---
+//@ spec isIdentity(c cid.Cid) bool
+//@ spec identityBytes(c cid.Cid) []byte
+//@ func extractContents
+//@   assumed
+//@   pure
+//@   ensures result0 == isIdentity(k) && (result0 ==> result1 == identityBytes(k))
+//@ func (*idstore).Has
+//@   prop C01
+//@   arith int
+//@   requires b != nil
+//@   modifies all
+//@   ensures[identity_is_always_present] isIdentity(k) ==> result0 && err == nil && !called("invoke:Blockstore.Has#0")
+//@   ensures[others_from_the_inner_store] !isIdentity(k) ==> called("invoke:Blockstore.Has#0") && result0 == res("invoke:Blockstore.Has#0", 0) && err == res("invoke:Blockstore.Has#0", 1)
+//@   site[asks_for_k] invoke:Blockstore.Has : arg0 == b.bs && arg2 == k
+//@ func (*idstore).GetSize
+//@   prop C01
+//@   arith int
+//@   requires b != nil
+//@   modifies all
+//@   ensures[identity_size] isIdentity(k) ==> result0 == len(identityBytes(k)) && err == nil && !called("invoke:Blockstore.GetSize#0")
+//@   ensures[others_from_the_inner_store] !isIdentity(k) ==> called("invoke:Blockstore.GetSize#0") && result0 == res("invoke:Blockstore.GetSize#0", 0)
+//@   site[asks_for_k] invoke:Blockstore.GetSize : arg0 == b.bs && arg2 == k
+//@ func iface Blockstore.GetSize
+//@ func (*idstore).Get
+//@   prop C01
+//@   arith int
+//@   requires b != nil
+//@   modifies all
+//@   ensures[identity_bytes_from_the_cid] isIdentity(k) && err == nil ==> blockBytes(result0) == identityBytes(k) && blockCid(result0) == k
+//@   ensures[identity_never_asks] isIdentity(k) ==> !called("invoke:Blockstore.Get#0")
+//@   ensures[others_from_the_inner_store] !isIdentity(k) ==> called("invoke:Blockstore.Get#0") && result0 == res("invoke:Blockstore.Get#0", 0) && err == res("invoke:Blockstore.Get#0", 1)
+//@   site[asks_for_k] invoke:Blockstore.Get : arg0 == b.bs && arg2 == k
+//@ func (*idstore).Put
+//@   prop C01
+//@   arith int
+//@   requires b != nil
+//@   modifies all
+//@   ensures[identity_is_not_stored] isIdentity(blockCid(bl)) ==> err == nil && !called("invoke:Blockstore.Put#0")
+//@   ensures[others_are_stored] !isIdentity(blockCid(bl)) ==> called("invoke:Blockstore.Put#0") && err == res("invoke:Blockstore.Put#0", 0)
+//@   site[stores_the_block] invoke:Blockstore.Put : arg0 == b.bs && arg2 == bl
+//@ func (*idstore).DeleteBlock
+//@   prop C01
+//@   arith int
+//@   requires b != nil
+//@   modifies all
+//@   ensures[identity_is_not_deleted] isIdentity(k) ==> err == nil && !called("invoke:Blockstore.DeleteBlock#0")
+//@   ensures[others_are_deleted] !isIdentity(k) ==> called("invoke:Blockstore.DeleteBlock#0") && err == res("invoke:Blockstore.DeleteBlock#0", 0)
+//@   site[deletes_k] invoke:Blockstore.DeleteBlock : arg0 == b.bs && arg2 == k
+//@ func (*idstore).PutMany
+//@   prop C01
+//@   arith int-assumed
+//@   requires b != nil
+//@   modifies all
+//@   loop 0 invariant[only_real_blocks_kept] forall(j, 0, len(toPut), !isIdentity(blockCid(toPut[j])))
+//@   site[keeps_only_real_blocks] builtin:append : !isIdentity(blockCid(bl)) && len(arg1) == 1 && arg1[0] == bl
+//@   site[stores_what_was_kept] invoke:Blockstore.PutMany : arg0 == b.bs && arg2 == toPut
